@@ -6,8 +6,11 @@ Model of the FKM-nonlinear assessment with the damage parameter P_RAM, end to en
         calculate_material_woehler_parameters_P_RAM (P_RAM_Z_WS, P_RAM_D_WS with the f_2.5% factor),
         calculate_component_woehler_parameters_P_RAM (f_RAM, P_RAM_Z, P_RAM_D)
   * `materiallaws/notch_approximation_law.py`    Binned: look-up of the class whose upper edge is the first
-        one `>= |load|`, value of that class with the sign of the load; with per-point tables the class
-        is chosen from the FIRST point's load
+        one `>= |load|`, value of that class with the sign of the load.  With per-point tables the code
+        before repo commit 3047e0d chose the class from the FIRST point's load; since 3047e0d every point
+        is looked up with its own load in its own table column.  The model keeps the first-point structure
+        (`lawBatch`); for the proportional loads of an assessment `classQ_first_eq_own`
+        (Proofs/Lemmas/Assessment.lean) proves that class equal to the own-column class of the repaired code
   * `stress/rainflow/fkm_nonlinear.py`           the HCM detector = `Model/HCM.lean` (imported, law = the look-up)
   * `stress/rainflow/recorders.py`               S_a, S_m, epsilon_a of a recorded hysteresis
   * `strength/damage_parameter.py`               P_RAM row function = `Model/FkmNonlinear.lean` (imported)
@@ -57,7 +60,9 @@ def tval (tab : List Int) (cls : Nat) (x : Int) : Int := x.sign * tab.getD (min 
 /-- `Binned.stress / strain / stress_secondary_branch / strain_secondary_branch` for the point whose
 own load (range) is `x`, when the tables are per point and the FIRST point's load is `c0/ck · x`
 (points with proportional loads `c0·l`, `ck·l`): the class is found with the first point's load in
-the first point's class grid (maximum absolute load `M0`), the value is taken from the point's own table. -/
+the first point's class grid (maximum absolute load `M0`), the value is taken from the point's own table.
+This is the structure of the code before repo commit 3047e0d; the repaired code looks every point up with its own
+load in its own column, which is the same class by `classQ_first_eq_own` (Proofs/Lemmas/Assessment.lean). -/
 def lawBatch (n : Nat) (M0 c0 ck : Int) (t : Tables) : Law :=
   { sigma := fun x => tval t.sig (classQ n M0 (c0 * x) ck n) x
     eps := fun _ x => tval t.eps (classQ n M0 (c0 * x) ck n) x
@@ -187,7 +192,7 @@ def batchLoads (L : List Int) (cs : List Int) : List Vec := L.map fun l => cs.ma
 /-- `fkm_load_sequence.maximum_absolute_load(max_load_independently_for_nodes=True)` for the point at POSITION `k` of the
 rows of a multi-point load sequence: the maximum absolute value of column `k`.  (The maxima are matched to the points by
 position - the look-up tables are built from them in this order and `Binned` / the HCM detector use them by position; the
-code up to the repair `tools/fixes/C10-node-order.diff` returned them sorted by node label instead: finding
+code up to the repair /repo commit 64dfe3b returned them sorted by node label instead: finding
 `batch-node-order`.) -/
 def colMaxAbs (rows : List Vec) (k : Nat) : Int := maxAbsI (rows.map (·.getD k 0))
 
